@@ -236,10 +236,6 @@ func caseLine(c *fedlab.Case, v *fedlab.Verdict, replayPath string) string {
 	if v.Ref != nil {
 		ref = v.Ref.Data.Sexp()
 	}
-	viol := []string{"viol"}
-	for _, m := range v.Failed() {
-		viol = append(viol, common.QS(m))
-	}
 	return common.L("c01", id, c.Summary(v),
 		common.L("flags", "(planning "+flag(v.PlanningOK)+")", "(gwerrors "+flag(v.GatewayErrors)+")", "(referrors "+flag(v.RefErrors)+")",
 			"(reqvalid "+flag(len(v.InvalidRequests) == 0)+")", "(owned "+flag(len(v.NotOwned) == 0)+")",
